@@ -61,3 +61,26 @@ package tree
 //@   modifies var position, tokenIndex, tree, maxToken
 //@   modifies Elems.DT_token at b where true
 //@   modifies MapDom.DT_memoKey!DT_memo, MapVal.DT_memoKey!DT_memo at b where true
+
+// ---------------------------------------------------------------------------------------------
+// Bodies of the runtime functions (verified on a carrier instantiation of the template).
+// Sequence theory used here (trusted, facts about finite lists; see DESIGN.md 4.4):
+//   A1  tabs(store(a,k,t), k+1) == snoc(tabs(a,k), t)            (k >= 0)
+//   A2  j <= i  ==>  tabs(store(a,i,t), j) == tabs(a,j)
+//   AX  (forall i in [0,j): a[i] == b[i])  ==>  tabs(a,j) == tabs(b,j)
+
+//@ smt (assert (forall ((a (Array Int DT_token)) (k Int) (t DT_token)) (! (=> (>= k 0) (= (tabs (store a k t) (+ k 1)) (snoc (tabs a k) t))) :pattern ((tabs (store a k t) (+ k 1))))))
+//@ smt (assert (forall ((a (Array Int DT_token)) (i Int) (j Int) (t DT_token)) (! (=> (<= j i) (= (tabs (store a i t) j) (tabs a j))) :pattern ((tabs (store a i t) j)))))
+//@ smt (declare-fun tabsDiff ((Array Int DT_token) (Array Int DT_token) Int) Int)
+//@ smt (assert (forall ((a (Array Int DT_token)) (b (Array Int DT_token)) (j Int)) (! (or (= (tabs a j) (tabs b j)) (and (<= 0 (tabsDiff a b j)) (< (tabsDiff a b j) j) (not (= (select a (tabsDiff a b j)) (select b (tabsDiff a b j)))))) :pattern ((tabs a j) (tabs b j)))))
+
+//@ func tokens.Add
+//@   requires soff(t.tree) == 0 && 0 <= index && index <= len(t.tree)
+//@   ensures  soff(t.tree) == 0 && len(t.tree) >= index + 1 && len(t.tree) >= old(len(t.tree))
+//@   ensures  tabs(elems(t.tree), index + 1) == snoc(old(tabs(elems(t.tree), index)), mk(token, rule, begin, end))
+//@   ensures  forall(j, imp(j <= index, tabs(elems(t.tree), j) == old(tabs(elems(t.tree), j))))
+//@   modifies Elems.DT_token at b where b == sbase(t.tree)
+
+//@ func tokens.Trim
+//@   requires length <= len(t.tree)
+//@   ensures  len(t.tree) == length && soff(t.tree) == old(soff(t.tree)) && sbase(t.tree) == old(sbase(t.tree))
